@@ -64,16 +64,23 @@ func (c *AesCipher) Decrypt(cipherTextWithIv []byte) ([]byte, error) {
 		return nil, errors.New("invalid format: missing splitter")
 	}
 
+	// encoding/base64 silently skips CR and LF, Floodgate's decoder
+	// (java.util.Base64.getDecoder()) rejects them. Accepting them would let
+	// the encoded data be altered without failing authentication.
+	if bytes.ContainsAny(data, "\r\n") {
+		return nil, errors.New("invalid format: line break in base64 data")
+	}
+
 	// Decode base64-encoded IV and ciphertext
 	ivB64 := data[:splitIndex]
 	cipherTextB64 := data[splitIndex+1:]
 
-	iv, err := base64.StdEncoding.DecodeString(string(ivB64))
+	iv, err := base64.StdEncoding.Strict().DecodeString(string(ivB64))
 	if err != nil {
 		return nil, fmt.Errorf("failed to decode IV: %w", err)
 	}
 
-	cipherText, err := base64.StdEncoding.DecodeString(string(cipherTextB64))
+	cipherText, err := base64.StdEncoding.Strict().DecodeString(string(cipherTextB64))
 	if err != nil {
 		return nil, fmt.Errorf("failed to decode ciphertext: %w", err)
 	}
